@@ -31,7 +31,7 @@ type ccase struct {
 	Batch   int    `json:"batch"`   // --batch-size (0 = not given)
 	MaxCPU  int    `json:"maxcpu"`  // --max-cpu (0 = not given)
 	Jitter  int    `json:"jitter"`  // VERIF_JITTER max µs
-	Mode    string `json:"mode"`    // devfull_o | devfull_stdout | pipe | (cmdreal_test.go:) file_o | file_stdout | fifo_o | pipe_devstdout | fulldisk_o
+	Mode    string `json:"mode"`    // devfull_o | devfull_stdout | pipe | (transient_test.go:) nonblock_stdout | (cmdreal_test.go:) file_o | file_stdout | fifo_o | pipe_devstdout | fulldisk_o
 	K       int    `json:"k"`       // pipe: bytes read before the read end is closed; file_*: file size limit; fulldisk_o: size of the file system
 	PipeCap int    `json:"pipecap"` // pipe: requested capacity (bytes)
 }
@@ -63,7 +63,7 @@ func (c ccase) validate() error {
 		return fmt.Errorf("nrec and seqlen must be >= 1")
 	}
 	switch c.Mode {
-	case "devfull_stdout", "pipe", "file_stdout":
+	case "devfull_stdout", "pipe", "file_stdout", "nonblock_stdout":
 	case "devfull_o", "file_o", "fifo_o", "pipe_devstdout", "fulldisk_o":
 		if c.Cmd == "obicsv" {
 			return fmt.Errorf("obicsv does not honour -o (domain decision)")
